@@ -225,6 +225,7 @@ pub fn run_enum(e: &WireEngine, ctx: &Ctx) {
                 FK::CtLabelSwap,
                 FK::UnknownField,
                 FK::TypeConfusion,
+                FK::WrongDocument,
                 FK::Oversize,
                 FK::ByteFlip,
             ]
@@ -241,6 +242,7 @@ pub fn run_enum(e: &WireEngine, ctx: &Ctx) {
                 FK::StatusFlip,
                 FK::UnknownField,
                 FK::TypeConfusion,
+                FK::WrongDocument,
                 FK::ByteFlip,
             ]
         };
